@@ -570,3 +570,30 @@ func VerifC04_VendorReplies() {
 		}
 	}
 }
+
+// every decodable match-field kind, masked and unmasked, followed by a second field: the
+// decoder must consume exactly the first field's bytes and expose both as written
+func VerifC04_MatchFieldKinds() {
+	w := &refW{}
+	xid := c04hdr(w, 11)
+	w.zeros(40)
+	start := len(w.b)
+	w.u16(1)
+	w.u16(0)
+	k := vr.Choice("fkind", nFieldKinds-2)
+	vr.Tag("kind", fieldKindNames[k])
+	var oxms [][]byte
+	for _, kind := range []int{k, 0} {
+		_ = buildField(kind)
+		fw := &refW{}
+		refOXM(fw)
+		oxms = append(oxms, fw.b)
+		w.raw(fw.b)
+	}
+	w.setU16(start+2, uint16(len(w.b)-start))
+	w.padTo8()
+	f, ok := c04parse(w).(*FlowRemoved)
+	vr.Assert(ok, "kind")
+	c04checkHeader(&f.Header, 11, xid, len(w.b))
+	c04checkMatch(&f.Match, oxms)
+}
